@@ -28,7 +28,7 @@ def main():
                 "engine": "pbt",
                 "level_claimed": {"category": "exploration", "text": m.LEVEL_TEXT, "design_ref": "DESIGN.md section 5 " + pid},
                 "level_note": m.LEVEL_NOTE,
-                "technique": m.TECHNIQUE,
+                "technique": m.TECHNIQUE + "; thorough tier adds a coverage-guided stage (atheris/libFuzzer mutating the choice sequence of the same Hypothesis strategy, same judge)",
             })
         else:
             na.append({"property_id": pid, "reason": NA.get(pid, PENDING_REASON)})
@@ -43,13 +43,12 @@ def main():
             "add_only": True,
         },
         "engines": [{"name": "pbt", "path": "pbt/core.py", "serves_properties": sorted(mods),
-                     "kind_free_text": "property-based testing runner: Hypothesis (seeded, 16 shards) + exhaustive enumerators over the same JSON case format, collect-then-shrink with root-cause signatures, replay corpus, known-findings protocol"}],
+                     "kind_free_text": "property-based testing runner: Hypothesis (seeded, 16 shards) + exhaustive enumerators over the same JSON case format, collect-then-shrink with root-cause signatures, replay corpus, known-findings protocol; thorough tier: plus a coverage-guided atheris/libFuzzer stage over the same strategies (pbt/fuzz.py)"}],
         "checks": checks,
         "not_applicable": na,
         "notes": "Run any check as ./run_check.sh <ID> <quick|thorough>; VERIF_SEED selects the seed. Exit 0 held, 1 VIOLATION, 2 harness error. Genuine defects found are either repaired by fix: commits in /repo or listed in known_findings.json.",
     }
-    if not na:
-        del m["not_applicable"]
+    # kept explicit even when empty: every listed property is claimed
     with open(os.path.join(HERE, "MANIFEST.json"), "w") as fh:
         json.dump(m, fh, indent=1)
         fh.write("\n")
